@@ -1135,6 +1135,12 @@ class Interp:
             return a is b
         if isinstance(b, SObj):
             return self.equals(b, a)
+        if isinstance(a, Opaque) and isinstance(b, Opaque) and a.what == "ratio" and b.what == "ratio":
+            return And(compare("==", a.payload[0], b.payload[0]), a.payload[1] == b.payload[1])
+        if isinstance(a, Opaque) and a.what == "ratio" and isinstance(b, (int, float)) and not is_sym(a.payload[0]):
+            return a.payload[0] / a.payload[1] == b
+        if isinstance(b, Opaque) and b.what == "ratio" and isinstance(a, (int, float)):
+            return self.equals(b, a)
         if isinstance(a, Opaque) or isinstance(b, Opaque):
             raise Unsupported("equality on opaque value")
         if isinstance(a, (FuncVal, BoundMethod, Builtin)) or isinstance(b, (FuncVal, BoundMethod, Builtin)):
